@@ -236,6 +236,30 @@ def run_somersault(task: Tuple, col: common.Collector) -> None:
     col.count("somersault-parts")
 
 
+def run_snoop(task: Tuple, col: common.Collector) -> None:
+    """the snoop tool's handler as a caller of DiagLayer.decode / decode_response"""
+    kind, arg, tier, wseed = task
+    from .. import snoopleg
+    r = random.Random(wseed)
+    n = 400 if tier == "quick" else 6000
+    if kind == "somersault":
+        import odxtools
+        db = odxtools.load_pdx_file(os.path.join(common.REPO, "examples", "somersault.pdx"))
+        for layer in db.diag_layers:
+            if not any(svc.request is not None for svc in layer.services):
+                continue
+            snoopleg.drive(col, layer, snoopleg.somersault_stream(layer, r, n), "somersault",
+                           {"database": "somersault.pdx", "layer": layer.short_name})
+    else:
+        try:
+            ll = codecrun.LoadedLayer(arg)
+        except Exception as e:
+            col.fail_inconclusive(f"generated layer {arg['name']} does not load: {e}")
+            return
+        snoopleg.drive(col, ll.layer, snoopleg.somersault_stream(ll.layer, r, n), "generated",
+                       {"layer": arg})
+
+
 def run(tier: str, col: common.Collector) -> None:
     seed = common.seed()
     tasks: List[Tuple] = []
@@ -250,8 +274,19 @@ def run(tier: str, col: common.Collector) -> None:
     tasks.append(("compose", extra_layer(), tier, seed + 5))
     common.pmap(run_layer, tasks, col)
     common.pmap(run_somersault, [(tier, seed * 31 + p, p, 8) for p in range(8)], col)
+    from . import c06
+    r6 = random.Random(seed * 17 + 3)
+    specs = c06.gen_specs("quick", r6)
+    specs = r6.sample(specs, 24 if tier == "quick" else 200)
+    stasks: List[Tuple] = [("somersault", None, tier, seed * 7 + 1)]
+    for i, sp in enumerate(specs):
+        stasks.append(("generated", c06.build_layer(i, [(s, list(c)) for s, c in sp], r6, i % 3), tier,
+                       seed * 13 + i))
+    common.pmap(run_snoop, stasks, col)
     for need in ("cell:STD", "cell:MINMAX", "cell:LEAD", "cell:compose", "somersault-parts",
-                 "step-counted-calls", "outcome:returned", "outcome:DecodeError"):
+                 "step-counted-calls", "outcome:returned", "outcome:DecodeError",
+                 "snoop:request", "snoop:response", "snoop:tester", "snoop:unrecognized",
+                 "snoop:pending"):
         if not col.counters.get(need):
             col.fail_inconclusive(f"monitor counter {need} stayed at zero")
 
